@@ -97,6 +97,7 @@ def _bind(env, name, value):
         return env if env[name] == d else None
     e = dict(env)
     e[name] = d
+    e["node:" + name] = value
     return e
 
 
@@ -195,19 +196,28 @@ BODY_FIELDS_CLAIMED = {
 }
 
 
-def occurrences(template, tree):
-    """Reference occurrence finder -> list of (first node, last node) per occurrence."""
+def occurrences(template, tree, with_env=False):
+    """Reference occurrence finder -> list of (first node, last node[, env]) per occurrence."""
     out = []
+
+    def first_env(p, n):
+        for e in match(p, n):
+            return e
+        return None
+
     if isinstance(template, list):
         k = len(template)
         for node in ast.walk(tree):
             for f in BODY_FIELDS_CLAIMED.get(type(node), ()):
                 body = getattr(node, f)
                 for i in range(0, len(body) - k + 1):
-                    if matches(template, body[i : i + k]):
-                        out.append((body[i], body[i + k - 1]))
+                    e = first_env(template, body[i : i + k])
+                    if e is not None:
+                        out.append((body[i], body[i + k - 1], e) if with_env else (body[i], body[i + k - 1]))
         return out
     for node in ast.walk(tree):
-        if isinstance(node, (ast.expr, ast.stmt)) and matches(template, node):
-            out.append((node, node))
+        if isinstance(node, (ast.expr, ast.stmt)):
+            e = first_env(template, node)
+            if e is not None:
+                out.append((node, node, e) if with_env else (node, node))
     return out
